@@ -42,6 +42,14 @@ def _floatargs_keys(m, mod):
     for n in ast.walk(fa.node):
         if isinstance(n, ast.Set):
             return {e.value for e in n.elts if isinstance(e, ast.Constant)}
+    # the key set may live in a module level constant (frozenset({...}) / set / tuple)
+    for n in body_walk(fa.node):
+        if isinstance(n, ast.Compare) and any(isinstance(o, ast.In) for o in n.ops) and isinstance(n.comparators[0], ast.Name):
+            e = mod.consts.get(n.comparators[0].id)
+            if isinstance(e, ast.Call) and e.args:
+                e = e.args[0]
+            if isinstance(e, (ast.Set, ast.Tuple, ast.List)):
+                return {x.value for x in e.elts if isinstance(x, ast.Constant)}
     return set()
 
 
